@@ -28,7 +28,7 @@ import (
 )
 
 var st = stat.New("C20",
-	"Trial = {schedule class free | forced | inflight | overflow; 1..8 logging goroutines each logging 1..50 numbered entries through two loggers with separate recording writers; 0..1000 entries of pre-occupancy; process-wide log level DEBUG..ERROR with every entry logged through a call that passes it - levelled calls only, or (a third of the trials) levelled calls at the trial's level, WARN and ERROR mixed with the raw calls WriteLog and Trace that ignore the level; in a quarter of the trials the level is raised to ERROR after the last logging call returned and before the flush is requested; forced: the flusher is parked at the yield hook between its two polls, the last 1..20 entries of one goroutine are logged, the flush is requested (observed through an accessor), the flusher is released; inflight: a writer taking 40 ms per Write, flush requested while the last entry is off the queue but not yet written; overflow: 10001..10300 entries from one goroutine while the writer stalls for 250 ms; late: both writers stall 150 ms on their first entry, 1..3 goroutines log 2..12 entries each, the flush is requested and - once the request is observed - every goroutine logs 1..3 further entries (these need not be written when the flush returns, but must not overtake the goroutine's earlier entries)}. Oracle over the recording writers after FlushLogger returned: every entry whose logging call returned before the flush request is present exactly once on the writer of its logger (and never on the other), entries of one goroutine appear in logging order, every Write call carries exactly one entry (one token; one line, or for a raw entry logged without a terminator no line end at all) and no Write carries anything that was not logged, FlushLogger returns only after the flusher acknowledged (or the timeout passed) and within the 1 s flush timeout + slack. Non-trivial = forced trial, overflow trial, or >= 3 goroutines logging. Distinct = distinct trial JSON.",
+	"Trial = {schedule class free | forced | inflight | overflow; 1..8 logging goroutines each logging 1..50 numbered entries through two loggers with separate recording writers; 0..1000 entries of pre-occupancy; process-wide log level DEBUG..ERROR with every entry logged through a call that passes it - levelled calls only, or (a third of the trials) levelled calls at the trial's level, WARN and ERROR mixed with the raw calls WriteLog and Trace that ignore the level; in a quarter of the trials the level is raised to ERROR after the last logging call returned and before the flush is requested; forced: the flusher is parked at the yield hook between its two polls, the last 1..20 entries of one goroutine are logged, the flush is requested (observed through an accessor), the flusher is released; inflight: a writer taking 40 ms per Write, flush requested while the last entry is off the queue but not yet written; overflow: 10001..10300 entries from one goroutine while the writer stalls for 250 ms; slow: a writer that takes 2 ms per Write and 560..700 entries - the flush runs into its 1 s timeout, after which the backlog must still reach the writer one Write at a time, once and in order; late: both writers stall 150 ms on their first entry, 1..3 goroutines log 2..12 entries each, the flush is requested and - once the request is observed - every goroutine logs 1..3 further entries (these need not be written when the flush returns, but must not overtake the goroutine's earlier entries)}. Oracle over the recording writers after FlushLogger returned: every entry whose logging call returned before the flush request is present exactly once on the writer of its logger (and never on the other), entries of one goroutine appear in logging order, every Write call carries exactly one entry (one token; one line, or for a raw entry logged without a terminator no line end at all) and no Write carries anything that was not logged, FlushLogger returns only after the flusher acknowledged (or the timeout passed) and within the 1 s flush timeout + slack. Non-trivial = forced trial, overflow trial, or >= 3 goroutines logging. Distinct = distinct trial JSON.",
 	"the losing interleaving is a window of a few nanoseconds without the hook; the hook (build tag verif, committed to the repository) makes it deterministic, the select between the two ready cases remains random (p = 1/2 per trial)",
 	"logger state is reset between trials through an overlay accessor that restarts the background flusher")
 
@@ -106,17 +106,20 @@ func (t Trial) hold() int {
 }
 
 type recWriter struct {
-	mu     sync.Mutex
-	writes [][]byte
-	stall  time.Duration
-	first  bool
-	slow   time.Duration // every Write takes this long
-	inside int32         // number of Write calls currently in progress
+	mu      sync.Mutex
+	writes  [][]byte
+	stall   time.Duration
+	first   bool
+	slow    time.Duration // every Write takes this long
+	inside  int32         // number of Write calls currently in progress
+	overlap int32         // set when a Write started while another one was in progress
 }
 
 func (w *recWriter) Write(v []byte) {
 	if w.slow > 0 {
-		atomic.AddInt32(&w.inside, 1)
+		if atomic.AddInt32(&w.inside, 1) > 1 {
+			atomic.StoreInt32(&w.overlap, 1)
+		}
 		time.Sleep(w.slow)
 		defer atomic.AddInt32(&w.inside, -1)
 	}
@@ -154,7 +157,7 @@ func installHook() {
 }
 
 func draw(rt *rapid.T) Trial {
-	t := Trial{Class: rapid.SampledFrom([]string{"free", "free", "free", "free", "free", "free", "free", "free", "free", "forced", "forced", "forced", "forced", "forced", "forced", "forced", "forced", "forced", "forced", "forced", "forced", "forced", "forced", "forced", "inflight", "inflight", "inflight", "overflow", "late", "late", "late"}).Draw(rt, "class")}
+	t := Trial{Class: rapid.SampledFrom([]string{"free", "free", "free", "free", "free", "free", "free", "free", "free", "forced", "forced", "forced", "forced", "forced", "forced", "forced", "forced", "forced", "forced", "forced", "forced", "forced", "forced", "forced", "inflight", "inflight", "inflight", "overflow", "late", "late", "late", "slow"}).Draw(rt, "class")}
 	t.Goroutines = rapid.IntRange(1, 8).Draw(rt, "goroutines")
 	t.JSON = rapid.IntRange(0, 3).Draw(rt, "jsonFormat") == 0
 	t.Level = rapid.SampledFrom([]int{0, 0, 0, 1, 2, 3}).Draw(rt, "level")
@@ -164,6 +167,17 @@ func draw(rt *rapid.T) Trial {
 		t.Goroutines = 1
 		t.Extra = rapid.IntRange(1, 300).Draw(rt, "extra")
 		t.Entries = []int{10000 + t.Extra}
+		return t
+	}
+	if t.Class == "slow" && stat.Tier() == "thorough" && rapid.IntRange(0, 5).Draw(rt, "slowKept") != 0 {
+		t.Class = "free" // each slow trial costs 1.5 s: a sixth of them is kept in the thorough tier
+	}
+	if t.Class == "slow" {
+		// a writer that takes 2 ms per Write and a backlog that cannot be drained within the
+		// 1 s flush timeout: FlushLogger gives up waiting, the entries still reach the writer
+		// one at a time and in order
+		t.Goroutines = 1
+		t.Entries = []int{rapid.IntRange(560, 700).Draw(rt, "entries")}
 		return t
 	}
 	if t.Class == "late" {
@@ -207,6 +221,9 @@ func run(t Trial) *stat.Failure {
 	}
 	if t.Class == "inflight" {
 		w1.slow = 40 * time.Millisecond
+	}
+	if t.Class == "slow" {
+		w1.slow = 2 * time.Millisecond
 	}
 	l1 := rogger.GetLogger(fmt.Sprintf("verifA%d", no))
 	l2 := rogger.GetLogger(fmt.Sprintf("verifB%d", no))
@@ -350,6 +367,17 @@ func run(t Trial) *stat.Failure {
 			return f
 		}
 	}
+	if t.Class == "slow" {
+		// the flush timed out by design: let the flusher finish the backlog, then judge
+		select {
+		case <-rogger.VerifFlusherDone():
+		case <-time.After(20 * time.Second):
+			return stat.Failf("flush-hangs", "class slow: the background flusher did not finish a backlog of %d entries (2 ms each) within 20 s", t.Entries[0])
+		}
+		if atomic.LoadInt32(&w1.overlap) != 0 {
+			return stat.Failf("concurrent-write", "class slow: a Write was started while another Write to the same writer was still in progress (the flush had timed out after %v)", took.Round(time.Millisecond))
+		}
+	}
 	// ---- oracle
 	check := func(w *recWriter, mine func(g int) bool, name string) *stat.Failure {
 		seen := map[string]int{}
@@ -419,7 +447,7 @@ func run(t Trial) *stat.Failure {
 	if f := check(w2, func(g int) bool { return g%2 == 1 }, "B"); f != nil {
 		return f
 	}
-	if took > 1500*time.Millisecond {
+	if took > 1500*time.Millisecond && t.Class != "slow" {
 		return stat.Failf("flush-too-slow", "FlushLogger took %v (flush timeout 1 s) although both writers are fast", took)
 	}
 	return nil
